@@ -6,6 +6,7 @@ inside those functions in /repo (one at a time, reverted afterwards), re-extract
 mutants that compile and that NO rule of the property reports ("survivors") for manual triage: each is either an equivalent /
 irrelevant mutant or a gap in the rules.  A development tool, not a registered check."""
 import importlib, json, os, re, subprocess, sys
+import os as _os; _os.environ["VERIF_NO_EVIDENCE"] = "1"   # never let a run against a modified tree rewrite evidence/
 HERE = os.path.dirname(os.path.dirname(os.path.abspath(__file__)))
 sys.path.insert(0, os.path.join(HERE, "engine", "py")); sys.path.insert(0, HERE)
 import facts, rules as R
